@@ -9,24 +9,30 @@ DRIVER = "C23"
 GENERATED = ["storage"]
 SOURCES = ["src/allmydata/storage/mutable.py", "src/allmydata/storage/mutable_schema.py", "src/allmydata/storage/server.py"]
 DESIGN_REF = "DESIGN.md §2 C23, Appendix A.3"
-TECHNIQUE = ("Lean 4 theorems over a byte-exact executable model of MutableShareFile and the slot_* server calls "
-             "(invariant + refinement to a growable byte array); differential correspondence of seeded op histories "
-             "(results, leases and RAW CONTAINER BYTES) against a real in-process StorageServer")
-LEVEL_TEXT = ("Container invariant, refinement of writev/readv and of whole request histories to byte-array semantics, zero "
-              "exposure after truncate+extend and lease preservation proved in Lean for all files satisfying the invariant and "
-              "all inputs; the model is tied to the code by comparing slot_readv results, lease lists and the raw bytes of "
-              "every container file after each operation of seeded histories.")
+TECHNIQUE = ("Lean 4 theorems (10) over a byte-exact executable model of MutableShareFile and of slot_testv_and_readv_and_writev / "
+             "slot_readv: container invariant + refinement of every request history to a finite map of growable byte arrays; "
+             "differential correspondence of seeded op histories and a fixed corpus (request results, slot_readv, lease lists and "
+             "RAW CONTAINER BYTES after every op) against a real in-process StorageServer; byte-array monitor written from the statement")
+LEVEL_TEXT = ("Proved in Lean for all inputs: wf_preserved / reachable_wf (invariant from create through every request history), "
+              "refines_bytearray (every request that returns, from every reachable state, on the repaired and the unrepaired server: "
+              "test verdict incl. missing share = empty, pre-state reads, zero-filled gaps, truncation, delete on new_length 0), "
+              "writev_refines, slot_readv_refines, write_vectors_in_order, testv_length_exceeding_specimen_fails, "
+              "truncate_then_extend_zero, leases_unchanged_by_data_ops (whole request: C25 rtw_keeps_every_lease), layout_constants. "
+              "The model is tied to the code by comparing results, lease lists and the raw bytes of every container file.")
 LEVEL_NOTE = ("Lean kernel + standard axioms; model hand-written from storage/mutable.py and storage/server.py, tied by "
-              "correspondence; layout constants regenerated from the source and pinned by theorem layout_constants; "
-              "offsets/lengths are non-negative ints; struct.error paths (values >= 2^32 / 2^64) excluded by the invariant.")
-RULE = ("seeded histories (<= 40 ops) of read-test-write / slot_readv / lease listing / raw dump on one storage index of a real "
-        "StorageServer, offsets up to far past the end, truncations, deletions, 0..10 leases; a case is one operation; distinct = "
-        "distinct (history index, op index); non-trivial = a request that touches an existing non-empty share or reads it")
+              "correspondence; layout constants regenerated from the source and pinned by layout_constants. Not covered: negative "
+              "offsets / non-'eq' test operators (rejected by the wire schemas, outside the model); struct.error paths "
+              "(values >= 2^32 / 2^64) are excluded by the invariant. Requests that RAISE are C24's subject.")
+RULE = ("a fixed corpus (empty write past the end, relocation with extra leases, growth smaller than the extra-lease block, "
+        "truncate-then-grow, vector order, test-vector length vs specimen) followed by seeded histories (<= 40 ops) of read-test-write / "
+        "slot_readv / lease listing / raw dump on one storage index of a real StorageServer, offsets up to far past the end, "
+        "truncations, deletions, 0..10 leases, test vectors with len != len(specimen); a case is one operation; distinct = distinct "
+        "(history index, op index); non-trivial = a request that touches an existing non-empty share or reads it")
 TRUSTED = ["lean/Tahoe/Storage/{Mutable,Slot,Lease}.lean are hand transcriptions of storage/mutable.py, storage/server.py, "
            "storage/lease.py (dict iteration modelled as association lists in insertion order)",
            "blake2b (nacl) is abstract in the model; the harness supplies its values as a table"]
 ASSUMPTIONS = ["offsets, lengths and new_length are non-negative ints (foolscap/HTTP schemas); the only test operator is b'eq'",
-               "timing_safe_compare is equality", "expiry times < 2^32, fewer than 2^32 extra leases"]
+               "timing_safe_compare is equality", "expiry times < 2^32, fewer than 2^32 extra leases (struct.error otherwise)"]
 
 WE = hx(b"W" * 32)
 
